@@ -65,6 +65,132 @@ def rand_grid(rng, fmt):
     return data, axes, names
 
 
+def check_unit_invariance(ctx, tmp):
+    """The same table in other units.  The property quantifies over "all grids ... all slice coordinates within an axis range":
+    a table does not become a different table when an axis is expressed in ns instead of s, in GeV instead of eV, or when the
+    stored values are rescaled.  Multiplying an axis (and the slicing coordinate) by a power of two is exact in binary
+    floating point, and so is every step of a two-point blend, so here invariance is demanded BIT FOR BIT: the slice of the
+    grid with the axis scaled by 2^-30, 2^-20, 2^20, 2^40 equals the slice of the unscaled grid, for evenly spaced, nearly
+    evenly spaced, doubling and random axes, at every node, between nodes, at the ends and one ulp beside a node, and each of
+    them equals the exact rational two-point formula; the remaining axes come back as given; scaling the stored values scales
+    the slice; the same for the row-wise interpolation (abscissae / ordinates in other units) and the file round trip."""
+    from fractions import Fraction as F
+    from nuspacesim.utils.grid import NssGrid
+    from nuspacesim.utils.interp import grid_slice_interp, vec_1d_interp
+    rng = ctx.rng
+    EXPS = (-30, -20, 20, 40)
+    eps = np.finfo(float).eps
+
+    def make_axis(kind, n):
+        if kind == "even":
+            return float(rng.uniform(-8, 8)) + float(rng.choice([0.25, 0.1, 1.0, 0.37])) * np.arange(n)
+        if kind == "even-linspace":
+            a = float(rng.uniform(-8, 8))
+            return np.linspace(a, a + float(rng.uniform(0.5, 6)), n)
+        if kind == "nearly-even":
+            return float(rng.uniform(-8, 8)) + np.cumsum(1.0 + float(rng.choice([1e-7, 1e-4, 1e-2, 0.3])) * rng.uniform(-1, 1, n))
+        if kind == "doubling":
+            return np.concatenate([[0.0], 0.5 * 2.0 ** np.arange(n - 1)])
+        if kind == "log-spaced":
+            return 10.0 ** np.linspace(-1, 1.5, n)
+        return np.sort(rng.uniform(-5, 5, n)) + np.arange(n) * 1e-3
+    kinds = ["even", "even-linspace", "nearly-even", "doubling", "log-spaced", "random"]
+    for t in range(180 if ctx.thorough else 36):
+        kind = kinds[t % len(kinds)]
+        n = int(rng.integers(3, 10))
+        x = np.asarray(make_axis(kind, n), dtype=np.float64)
+        nd = 2 + (t // len(kinds)) % 2
+        ax = int(rng.integers(0, nd))
+        shape = [int(v) for v in rng.integers(2, 5, nd)]
+        shape[ax] = n
+        data = rng.standard_normal(shape)
+        others = [np.sort(rng.uniform(-5, 5, m)) + np.arange(m) * 1e-3 for m in shape]
+        names = ["ax%d" % j for j in range(nd)]
+        k0 = int(rng.integers(0, n - 1))
+        vals = [("node", float(x[k])) for k in range(n)]
+        vals += [("between", float(x[k] + rng.uniform(0.05, 0.95) * (x[k + 1] - x[k]))) for k in sorted({k0, int(rng.integers(0, n - 1)), 0, n - 2})]
+        vals += [("node+-ulp", float(min(max(np.nextafter(x[k0 + 1], x[k0 + 1] + (1 if t % 2 else -1)), x[0]), x[-1])))]
+        planes = np.moveaxis(data, ax, 0)
+        for where, val in vals:
+            k = int(np.clip(np.searchsorted(x, val, side="right") - 1, 0, n - 2))
+            tt = (F(val) - F(float(x[k]))) / (F(float(x[k + 1])) - F(float(x[k])))
+            ref = np.array([float((1 - tt) * F(float(a)) + tt * F(float(b))) for a, b in zip(planes[k].ravel(), planes[k + 1].ravel())]).reshape(planes[k].shape)
+            mag = np.maximum(np.abs(planes[k]), np.abs(planes[k + 1]))
+            base = None
+            for e in (0,) + EXPS:
+                s_ax = 2.0 ** e
+                s_oth = 2.0 ** int(rng.choice(EXPS)) if e else 1.0
+                s_dat = 2.0 ** int(rng.choice((-20, 0, 0, 20))) if e else 1.0
+                axes = [(x * s_ax) if j == ax else (others[j] * s_oth) for j in range(nd)]
+                case = {"axis_kind": kind, "axis_unscaled": [repr(float(v)) for v in x], "axis_scaled_by": f"2**{e}", "other_axes_scaled_by": repr(s_oth), "values_scaled_by": repr(s_dat),
+                        "slice_value_unscaled": repr(val), "where": where, "slice_axis": ax, "shape": shape, "bracket": [k, k + 1]}
+                ctx.case(("slice-units", t, where, val, e), None)
+                ctx.count(f"slice_units_{kind}_{where}")
+                try:
+                    r = grid_slice_interp(NssGrid(data * s_dat, axes, names), val * s_ax, names[ax] if t % 2 else ax)
+                    got = np.asarray(r.data, dtype=np.float64) / s_dat
+                except Exception as ex:  # noqa
+                    ctx.violation("grid_slice_interp", "raises:axis-in-other-units", f"slicing a grid whose axis is multiplied by 2**{e} raises {type(ex).__name__}: {str(ex)[:100]}", case)
+                    break
+                if got.shape != ref.shape or not np.all(np.abs(got - ref) <= 8 * eps * mag + 1e-300):
+                    ctx.violation("grid_slice_interp", "not-linear-blend:axis-in-other-units",
+                                  f"with the {kind} axis multiplied by 2**{e} the slice ({where}) is not the linear blend of the two neighbouring sub-grids (largest deviation {float(np.max(np.abs(got - ref))) if got.shape == ref.shape else 'shape'})",
+                                  {**case, "result": got.ravel().tolist()[:12], "expected": ref.ravel().tolist()[:12]})
+                    break
+                if where == "node" and not np.all(np.abs(got - planes[int(np.argmin(np.abs(x - val)))]) <= 4 * eps * mag):
+                    ctx.violation("grid_slice_interp", "node-not-reproduced:axis-in-other-units", f"with the {kind} axis multiplied by 2**{e} the slice at a node is not the stored sub-grid", case)
+                    break
+                if not (len(r.axes) == nd - 1 and all(np.array_equal(a, b) for a, b in zip(r.axes, [a_ for j, a_ in enumerate(axes) if j != ax]))):
+                    ctx.violation("grid_slice_interp", "remaining-axes-changed:axis-in-other-units", "the remaining axes of the slice are not the axes given", case)
+                    break
+                if base is None:
+                    base = got
+                elif not np.array_equal(got, base):
+                    ctx.violation("grid_slice_interp", "unit-dependent", f"multiplying the axis by 2**{e} (exact) changes the slice: largest difference {float(np.max(np.abs(got - base)))}", case)
+                    break
+    # the row-wise interpolation: abscissae and query in other units give the same ordinate, ordinates in other units scale it
+    for t in range(60 if ctx.thorough else 16):
+        n, B = int(rng.integers(3, 10)), int(rng.integers(1, 7))
+        ys = np.sort(rng.uniform(0, 1, n)) + np.arange(n) * 1e-6
+        inc = rng.uniform(0.01, 1, (B, n)) * np.where(rng.uniform(0, 1, (B, n)) < 0.7, 1.0, 0.0); inc[:, 0] = 0.0; inc[:, -1] += 0.5
+        rows = np.cumsum(inc, axis=1)
+        xq = np.array([float(r_[0] + rng.uniform(0.02, 1.0) * (r_[-1] - r_[0])) for r_ in rows])
+        base = None
+        for e in (0,) + EXPS:
+            sx, sy = 2.0 ** e, (2.0 ** int(rng.choice(EXPS)) if e else 1.0)
+            ctx.case(("vec-units", t, e), None); ctx.count("vec_units")
+            case = {"rows_unscaled": rows.tolist(), "ys_unscaled": ys.tolist(), "x_unscaled": xq.tolist(), "abscissae_scaled_by": f"2**{e}", "ordinates_scaled_by": repr(sy)}
+            try:
+                got = np.asarray(vec_1d_interp(rows * sx, ys * sy, xq * sx), dtype=np.float64) / sy
+            except Exception as ex:  # noqa
+                ctx.violation("vec_1d_interp", "raises:row-in-other-units", f"{type(ex).__name__}: {str(ex)[:100]}", case)
+                break
+            if base is None:
+                base = got
+            elif got.shape != base.shape or not np.array_equal(got, base):
+                ctx.violation("vec_1d_interp", "unit-dependent", f"multiplying abscissae and query by 2**{e} and the ordinates by {sy} (exact) changes the interpolated value", {**case, "got": got.tolist(), "unscaled": base.tolist()})
+                break
+    # files: a grid whose axes are in small / large units reads back as written
+    for t, e in enumerate(EXPS):
+        for fmt, ext in (("hdf5", "h5"), ("fits", "fits")):
+            x = np.concatenate([[0.0], 0.5 * 2.0 ** np.arange(5)]) * 2.0 ** e
+            g = NssGrid(rng.standard_normal((6, 3)) * 2.0 ** (-e), [x, np.arange(3.0) * 2.0 ** e], ["t", "o"])
+            pth = os.path.join(tmp, f"units{t}.{ext}")
+            ctx.case(("io-units", fmt, e), None); ctx.count("io_units")
+            try:
+                g.write(pth, format=fmt)
+                b = NssGrid.read(pth, format=fmt)
+                ok = np.array_equal(np.asarray(b.data), np.asarray(g.data)) and all(np.array_equal(p_, q_) for p_, q_ in zip(b.axes, g.axes)) and list(b.axis_names) == ["t", "o"]
+            except Exception as ex:  # noqa
+                ok = False
+            finally:
+                if os.path.exists(pth):
+                    os.remove(pth)
+            if not ok:
+                ctx.violation("NssGrid.write/read", f"{fmt}-not-loss-free:axis-in-other-units", f"a grid whose axes are multiplied by 2**{e} does not read back as written", {"format": fmt, "axis": x.tolist()})
+
+
+
 def run(ctx: Ctx):
     from nuspacesim.utils.grid import NssGrid
     from nuspacesim.utils.interp import grid_slice_interp, vec_1d_interp
@@ -285,6 +411,7 @@ def run(ctx: Ctx):
                               {**case, "names": list(rN.axis_names), "expected_names": want_names, "result_shape": list(np.asarray(rN.data).shape)})
         except Exception as ex:  # noqa
             ctx.violation("grid_slice_interp", "raises", f"slicing a {nd}-dimensional grid along axis {ax} raises {type(ex).__name__}: {str(ex)[:100]}", case)
+    check_unit_invariance(ctx, tmp)   # (b'') the same tables in other units
     # ---------------- (c) bracketing interpolation on non-decreasing rows with plateaux
     n_rows = 3000 if ctx.thorough else 400
     for t in range(0, n_rows, 8):
